@@ -135,8 +135,11 @@ func ruleConnIdentity(c *Ctx) {
 			if cc == nil {
 				return
 			}
+			if _, isBuiltin := cc.Value.(*ssa.Builtin); isBuiltin {
+				return // append/len/... over a snapshot of connections dispatch nothing
+			}
 			for i, a := range cc.Args {
-				if !strings.HasSuffix(a.Type().String(), "*"+pkgRedis+".Conn") {
+				if a.Type().String() != "*"+pkgRedis+".Conn" {
 					continue
 				}
 				if !cc.IsInvoke() && i == 0 && cc.Signature().Recv() != nil {
@@ -339,10 +342,21 @@ func ruleAccessorsReadReceiver(c *Ctx) {
 						okAll, why = false, "reads a field of an object other than its receiver"
 					}
 				}
-			case *ssa.Call:
-				if _, isB := x.Common().Value.(*ssa.Builtin); !isB {
-					okAll, why = false, "calls "+calleeName(x.Common())
+			case *ssa.Call, *ssa.Defer:
+				cc := callCommon(ins)
+				if _, isB := cc.Value.(*ssa.Builtin); isB {
+					return
 				}
+				// taking the connection's own state lock around the read
+				if _, kind := lockEvent(cc); kind != "" && len(cc.Args) > 0 {
+					if _, _, base, ok := fieldOf(cc.Args[0]); ok && strip(base) == ssa.Value(fn.Params[0]) {
+						return
+					}
+					if fa, ok := cc.Args[0].(*ssa.FieldAddr); ok && strip(fa.X) == ssa.Value(fn.Params[0]) {
+						return
+					}
+				}
+				okAll, why = false, "calls "+calleeName(cc)
 			}
 		})
 		c.check(okAll, rid, "Conn."+name, c.P.pos(fn.Pos()), "reads receiver fields only", "the accessor does not only read its receiver: "+why)
